@@ -11,27 +11,47 @@ RUNNER_DIR = os.path.join(VERIF, 'replay')
 TARGET = os.path.join(VERIF, '.cache', 'replay-target')
 
 
-def build_runner(repo='/repo'):
-    """(re)build the runner against the current /repo tree (incremental)."""
+def build_runner(repo=None):
+    """(re)build the runner against the current tree of the repository (incremental).  VERIF_REPO selects another copy
+    of the repository (used to run the checks on a patched copy without touching /repo): the runner crate is then
+    instantiated inside that copy with its path dependencies rewritten and its *own* target directory (cargo's artifact
+    names do not depend on where a path dependency lives, so a shared target directory lets one tree link against
+    rlibs compiled from the other tree's sources)."""
+    import shutil
+    repo = os.path.abspath(repo or os.environ.get('VERIF_REPO', '/repo'))
     env = dict(os.environ)
-    env['CARGO_TARGET_DIR'] = TARGET
     env['CARGO_NET_OFFLINE'] = 'true'
-    env['VERIF_REPO'] = repo
     env.pop('RUSTUP_TOOLCHAIN', None)
     os.makedirs(os.path.join(VERIF, '.cache'), exist_ok=True)
-    lock = open(os.path.join(VERIF, '.cache', 'replay.lock'), 'w')
+    if repo == '/repo':
+        runner_dir, target = RUNNER_DIR, TARGET
+        lockfile = os.path.join(VERIF, '.cache', 'replay.lock')
+    else:
+        runner_dir = os.path.join(repo, '.verif-replay')
+        target = os.path.join(runner_dir, 'target')
+        os.makedirs(os.path.join(runner_dir, 'src'), exist_ok=True)
+        for fn in os.listdir(os.path.join(RUNNER_DIR, 'src')):
+            dst = os.path.join(runner_dir, 'src', fn)
+            if not os.path.exists(dst):
+                shutil.copy(os.path.join(RUNNER_DIR, 'src', fn), dst)
+        toml = open(os.path.join(RUNNER_DIR, 'Cargo.toml')).read().replace('"/repo/', '"%s/' % repo)
+        if not os.path.exists(os.path.join(runner_dir, 'Cargo.toml')):
+            open(os.path.join(runner_dir, 'Cargo.toml'), 'w').write(toml)
+            if os.path.exists(os.path.join(RUNNER_DIR, 'Cargo.lock')):
+                shutil.copy(os.path.join(RUNNER_DIR, 'Cargo.lock'), os.path.join(runner_dir, 'Cargo.lock'))
+        lockfile = os.path.join(runner_dir, 'build.lock')
+    env['CARGO_TARGET_DIR'] = target
+    lock = open(lockfile, 'w')
     fcntl.flock(lock, fcntl.LOCK_EX)
     try:
-        # Cargo.lock of the repo pins the dependency versions
-        src_lock = os.path.join(repo, 'Cargo.lock')
-        p = subprocess.run(['cargo', 'build', '--release', '--offline'], cwd=RUNNER_DIR, env=env,
+        p = subprocess.run(['cargo', 'build', '--release', '--offline'], cwd=runner_dir, env=env,
                            stdout=subprocess.PIPE, stderr=subprocess.STDOUT, text=True)
         if p.returncode != 0:
             return None, p.stdout[-3000:]
     finally:
         fcntl.flock(lock, fcntl.LOCK_UN)
         lock.close()
-    return os.path.join(TARGET, 'release', 'krp-replay'), ''
+    return os.path.join(target, 'release', 'krp-replay'), ''
 
 
 def run_scenario(scn):
